@@ -112,10 +112,21 @@ impl Dom for Taint {
 pub type Data = DataDomain<BitvectorDomain>;
 
 fn data_id() -> AbstractIdentifier {
-    AbstractIdentifier::new(
-        Tid::new("c05"),
-        AbstractLocation::Register(Variable { name: "RAX".to_string(), size: ByteSize::new(8), is_temp: false }),
-    )
+    static ID: std::sync::OnceLock<AbstractIdentifier> = std::sync::OnceLock::new();
+    ID.get_or_init(|| {
+        AbstractIdentifier::new(
+            Tid::new("c05"),
+            AbstractLocation::Register(Variable { name: "RAX".to_string(), size: ByteSize::new(8), is_temp: false }),
+        )
+    })
+    .clone()
+}
+
+fn is_const(v: &BitvectorDomain, want: u128, size: u8) -> bool {
+    match v {
+        BitvectorDomain::Value(b) => props::unbv(b) == (want, size as u32),
+        BitvectorDomain::Top(_) => false,
+    }
 }
 
 impl Dom for Data {
@@ -141,16 +152,27 @@ impl Dom for Data {
     fn from_real(v: &Self) -> Option<(u8, u8)> {
         let size = u64::from(v.bytesize()) as u8;
         let mut tag = 0u8;
-        if v.get_absolute_value().is_some() {
+        if let Some(a) = v.get_absolute_value() {
+            if !is_const(a, 1, size) {
+                return None;
+            }
             tag |= 1;
         }
-        if !v.get_relative_values().is_empty() {
+        let rel = v.get_relative_values();
+        if !rel.is_empty() {
+            if rel.len() != 1 {
+                return None;
+            }
+            let (id, off) = rel.iter().next().unwrap();
+            if *id != data_id() || !is_const(off, 0, size) {
+                return None;
+            }
             tag |= 2;
         }
         if v.contains_top() {
             tag |= 4;
         }
-        if tag != 0 && *v == Self::to_real(tag, size) {
+        if tag != 0 {
             Some((size, tag))
         } else {
             None
